@@ -149,6 +149,7 @@ package boltz
 //@ func (*fkIndex).CheckIntegrity
 //@   props C09
 //@   nosafety
+//@   callpre[a-dangling-reference-is-cleared-only-in-fix-mode-and-only-where-null-is-allowed] Put@1: fix && index.nullable
 //@   waive pre#Next the cursor protocol of the id and link cursors is C14's concern, not part of this claim
 //@   waive pre#Current the cursor protocol of the id and link cursors is C14's concern, not part of this claim
 //@   assume ciFix == fix
